@@ -125,6 +125,9 @@ func (td *ComplexVectorTypeDef) Deserialize(dr *codec.DecodingReader) (View, err
 			if offset < prevOffset {
 				return nil, fmt.Errorf("offset %d for element %d is smaller than previous offset %d", offset, i, prevOffset)
 			}
+			if i == 0 && uint64(offset) != td.VectorLength*OffsetByteLength {
+				return nil, fmt.Errorf("first offset %d does not match the offsets part size %d", offset, td.VectorLength*OffsetByteLength)
+			}
 			offsets[i] = offset
 			prevOffset = offset
 		}
